@@ -27,6 +27,7 @@ import json
 import math
 import os
 import random
+import re
 import sys
 import warnings
 from fractions import Fraction
@@ -419,6 +420,22 @@ def judge_case(d, obs=None, deep=True):
         def direct(v):
             tot = sum((ws[i] * rp.pred_exact(ps, EX[i][:j] + [v] + EX[i][j + 1:]) for i in idx), F(0))
             return tot / sum((ws[i] for i in idx), F(0))
+    if is_str(fd) and tabs and len(tabs[0]) == len(groups):
+        # pooling as seen in the table: a label that is no category of the feature stands for the pooled ones, it is
+        # named 'other k' with k = number of categories without a row of their own, and pooling a single category is none
+        labels = [r["cell"][1] for r in tabs[0] if r["cell"][0] == "label"]
+        pooled = [lb for lb in labels if lb not in real]
+        missing = sorted(real - set(labels))
+        if len(pooled) > 1:
+            bad.append(f"several labels that are no category of the feature: {pooled}")
+        elif pooled:
+            mm = re.search(r"other (\d+)$", str(pooled[0]))
+            kk = int(mm.group(1)) if mm else None
+            if kk is None or kk < 2 or kk != len(missing):
+                bad.append(f"pooled row {pooled[0]!r} although {len(missing)} categories {missing} have no row of their own "
+                           f"(k >= 2 and k = number of pooled categories expected; a real feature value loses its row and its partial dependence)")
+        elif missing:
+            bad.append(f"categories {missing} have no row and there is no pooled row")
     for mi, tab in enumerate(tabs):
         if len(tab) != len(groups):
             bad.append(f"{len(tab)} output rows for {len(groups)} groups")
